@@ -8,7 +8,7 @@ use serde_json::{json, Value};
 use std::collections::BTreeMap;
 use std::hash::{Hash, Hasher};
 
-pub const SHAPES: [&str; 16] = ["block-seq", "block-seq-nl", "block-map-nl", "explicit-key", "flow-seq", "flow-map", "flow-alternating", "seq-of-explicit-key", "built-seq", "built-map-value", "built-map-key", "block-seq-then-error", "block-seq-no-final-break", "flow-seq-empty-key-pairs", "flow-seq-pair-values", "flow-map-explicit-keys"];
+pub const SHAPES: [&str; 17] = ["block-seq", "block-seq-nl", "block-map-nl", "explicit-key", "flow-seq", "flow-map", "flow-alternating", "seq-of-explicit-key", "built-seq", "built-map-value", "built-map-key", "block-seq-then-error", "block-seq-no-final-break", "flow-seq-empty-key-pairs", "flow-seq-pair-values", "flow-map-explicit-keys", "block-seq-then-block-scalar"];
 pub const APIS: [&str; 9] = ["iter", "push", "load+forget", "load+drop", "drop", "clone", "eq", "hash", "emit"];
 pub const DEPTHS: [usize; 10] = [1, 10, 100, 255, 256, 1000, 2000, 10_000, 30_000, 300_000];
 
@@ -33,8 +33,13 @@ fn applicable(shape: usize, api: usize, depth: usize, tier: Tier) -> bool {
     }
     // more flow shapes (the flow-depth limit must hold however the levels are spelled): cheap while
     // the limit holds, so every depth is a grid point for every text API in both tiers
-    if shape >= 13 {
+    if (13..=15).contains(&shape) {
         return api < 4 && depth != 10_000;
+    }
+    // a block scalar under N nested sequences (its content N*2 columns deep): the pull iterator at
+    // every depth, push/load where block nesting does not overflow the stack yet
+    if shape == 16 {
+        return depth != 10_000 && (api == 0 || (api < 4 && depth <= 2000));
     }
     // constructed trees exercise the tree operations in isolation; text shapes exercise parsing/loading
     if built != (api >= 4) {
@@ -105,6 +110,7 @@ pub fn text_for(shape: usize, d: usize) -> String {
         }
         7 => format!("{}a", "- ? ".repeat(d)),
         11 => format!("{}[", "- ".repeat(d)),
+        16 => format!("{}|\n{}a\n{}b\n", "- ".repeat(d), " ".repeat(2 * d), " ".repeat(2 * d)),
         13 => format!("{}y{}", "[: x, ".repeat(d), "]".repeat(d)),
         14 => format!("{}b{}", "[a: ".repeat(d), "]".repeat(d)),
         15 => format!("{}a{}", "{? ".repeat(d), "}".repeat(d)),
@@ -262,7 +268,7 @@ pub fn worker(grid_name: &str, from: u64, to: u64) {
 
 pub fn check(tier: Tier) -> i32 {
     let mut rep = Report::new("C11", tier, "exploration");
-    rep.rule = "finite grid of nesting shapes {block sequence on one line, block sequence / block mapping with one indentation level per line, explicit keys, flow sequence, flow mapping, alternating flow, sequence of explicit keys, flow sequences of empty-key pairs '[: x, [: x, ...', of pair values '[a: [a: ...', flow mappings of explicit keys '{? {? ...'} x depths {1,10,100,255,256,1000,2000,3*10^4,3*10^5} x {iterator, push into a null receiver, load_from_str + forget, load_from_str + drop}, and iteratively constructed trees {nested sequences, nested mapping values, nested mapping keys} x the same depths x {drop, clone, ==, hash, emit}; every scenario runs in its own child process on a thread with an 8 MiB stack; a child that dies by a signal (or hangs) is re-run alone to confirm. Oracle: normal exit with success or an Err value. Non-trivial/distinct: distinct (shape, api, depth, outcome).".into();
+    rep.rule = "finite grid of nesting shapes {block sequence on one line, block sequence / block mapping with one indentation level per line, explicit keys, flow sequence, flow mapping, alternating flow, sequence of explicit keys, flow sequences of empty-key pairs '[: x, [: x, ...', of pair values '[a: [a: ...', flow mappings of explicit keys '{? {? ...', a literal block scalar under N nested block sequences} x depths {1,10,100,255,256,1000,2000,3*10^4,3*10^5} x {iterator, push into a null receiver, load_from_str + forget, load_from_str + drop}, and iteratively constructed trees {nested sequences, nested mapping values, nested mapping keys} x the same depths x {drop, clone, ==, hash, emit}; every scenario runs in its own child process on a thread with an 8 MiB stack; a child that dies by a signal (or hangs) is re-run alone to confirm. Oracle: normal exit with success or an Err value. Non-trivial/distinct: distinct (shape, api, depth, outcome).".into();
     rep.assumptions = vec!["'any depth that fits in memory' is decided on a finite grid up to depth 3*10^5 (3*10^4 in the quick tier, 10^4 for the quadratic-size shapes, 2000 for constructed nested keys whose construction is quadratic) on an 8 MiB stack".into()];
     rep.mandatory_scopes = 1;
     let g = grid(tier);
